@@ -26,6 +26,27 @@ pub fn zlib_lensweep_comps() -> Vec<Comp> {
     v
 }
 
+pub fn lazy_small_block_comps(quick: bool) -> Vec<Comp> {
+    let mut v = Vec::new();
+    for l in 4..=9 {
+        for m in 1..=3 {
+            v.push(Comp::Zlib(l, 0, 15, m));
+            if !quick {
+                v.push(Comp::Zlib(l, 0, 12, m));
+            }
+        }
+    }
+    v
+}
+
+pub fn lazy_small_block_texts(quick: bool) -> Vec<(usize, usize)> {
+    if quick {
+        vec![(12, 300_000), (8, 200_000)]
+    } else {
+        vec![(12, 300_000), (12, 1_000_000), (6, 300_000), (8, 300_000), (1, 300_000), (0, 200_000)]
+    }
+}
+
 pub fn grid_texts(ctx: &Ctx) -> Vec<(usize, usize)> {
     if ctx.quick() {
         vec![(1, 4096), (2, 4096), (3, 3000), (8, 12_000), (9, 12_000), (10, 4000), (11, 16_000)]
@@ -114,6 +135,9 @@ pub fn shared_stream_spaces(ctx: &Ctx, st: &mut Local, f: Sink) {
     };
     let bigtexts: Vec<(usize, usize)> = if ctx.quick() { vec![(8, 70_000), (1, 140_000)] } else { vec![(8, 70_000), (1, 140_000), (2, 100_000), (3, 200_000), (6, 66_000), (8, 300_000)] };
     e6_compgrid(ctx, "E6big", &bigcomps, &bigtexts, st, &mut g);
+    // lazy compressors with tiny blocks (memLevel 1..3: 127/255/511 tokens per block) on long self-similar
+    // texts: thousands of block boundaries, many of them right behind a deferred (lazy) literal
+    e6_compgrid(ctx, "E6blocks", &lazy_small_block_comps(ctx.quick()), &lazy_small_block_texts(ctx.quick()), st, &mut g);
     // every alignment of a long match relative to the hash chain's position re-base thresholds
     let acomps: Vec<Comp> = if ctx.quick() { vec![Comp::Zlib(6, 0, 15, 8), Comp::Libdeflate(6)] } else {
         vec![Comp::Zlib(1, 0, 15, 8), Comp::Zlib(4, 0, 15, 8), Comp::Zlib(6, 0, 15, 8), Comp::Zlib(9, 0, 15, 9), Comp::ZlibNg(1), Comp::ZlibNg(2), Comp::ZlibNg(6), Comp::Libdeflate(1), Comp::Libdeflate(6), Comp::Miniz(1), Comp::Miniz(6)]
